@@ -59,6 +59,18 @@ theorem access_depth (x : String) (d n : Nat) : AccessOk x d n (accessText x (d 
   · simp [h]
   · simp only [h, if_false]; rw [wrapN_closed]
 
+/-- **C10.access_injective** — different totals give different texts: the number of indirections
+an access consumes can be read off the text. -/
+theorem access_injective (x : String) (k k' : Nat) (h : accessText x k = accessText x k') : k = k' := by
+  have e1 := access_depth x k 0
+  have e2 := access_depth x k' 0
+  unfold AccessOk at e1 e2
+  simp only [Nat.add_zero] at e1 e2
+  rw [e1, e2] at h
+  have := congrArg String.length h
+  rw [accessClosed_length, accessClosed_length] at this
+  by_cases h0 : k = 0 <;> by_cases h1 : k' = 0 <;> simp [h0, h1] at this <;> omega
+
 /-- the expression tree the model builds prints as that text followed by the call -/
 theorem access_render (e : CExpr) (k : Nat) (m : String) :
     render (accessE e k m none) = accessText (render e) k ++ m ++ "()" := by
